@@ -263,7 +263,7 @@ def flatten(world, ir, case=None, prefix=''):
     elif k == 'array':
         sub = flatten(world, ir[2], case, prefix)
         out.append((sub[0][0] if len(sub) == 1 else None,
-                    'array[%s]{%s}' % (_len_str(ir[1]), ','.join('%s:%s' % (n, a) for n, a in sub))))
+                    'array[%s]{%s}' % (_len_str(ir[1]), ','.join(('%s:%s' % (n, a)) if n else a for n, a in sub))))
     elif k == 'prefixed':
         lf = flatten(world, ir[1], case, prefix)
         sub = flatten(world, ir[2], case, prefix)
